@@ -90,8 +90,8 @@ def kernel(method, x, y, precision=None, prior_lambda=1.0, prior_weight=0.1):
         sxx = sum((x[c] - mx) ** 2 for c in v)
         syy = sum((y[c] - my) ** 2 for c in v)
         sxy = sum((x[c] - mx) * (y[c] - my) for c in v)
-        scale = max(1.0, max(abs(x[c]) for c in v), max(abs(y[c]) for c in v)) ** 2
-        if sxx <= 1e-4 * scale or syy <= 1e-4 * scale:
+        # relative to each vector's own magnitude, so that the rule is the same at every data scale
+        if sxx <= 1e-4 * max(abs(x[c]) for c in v) ** 2 or syy <= 1e-4 * max(abs(y[c]) for c in v) ** 2:
             return None, w      # constant, or too close to constant for a stable quotient
         r = sxy / math.sqrt(sxx) / math.sqrt(syy)
         return r * w / 2.0, w
